@@ -30,6 +30,31 @@ def run(ctx):
     st = json.loads(p.stdout.strip().splitlines()[-1])
     acc, rejected, _ = vlib.validate_traces(ctx, "ardop", "ArdopPropsTrace", "ArdopPropsTrace.cfg", traces, st["traces"])
     rows = vlib.read_ndjson(traces)
+    # mechanism level: the TNC side event log of every outbound schedule against Ardop.tla (silent steps inferred)
+    mech_rows = []
+    for row in rows:
+        sc = row.get("scen") or {}
+        if not isinstance(sc, dict) or sc.get("kind") != "outbound" or not sc.get("writes"):
+            continue
+        for ev in row["ev"]:
+            if ev["op"] == "TncLog":
+                log = []
+                for e in ev["log"]:
+                    if e["k"] in ("closeCall", "closeRet", "disc"):
+                        break
+                    log.append({"op": e["k"], "v": e["v"]})
+                if log and log[0]["op"] == "writeCall":
+                    mech_rows.append({"t": len(mech_rows) + 1, "ev": log, "nw": sum(1 for e in log if e["op"] == "writeCall"), "scen": sc})
+    macc = 0
+    if mech_rows:
+        mf = ctx.path("mech.ndjson")
+        vlib.write_ndjson(mf, mech_rows)
+        macc, mrej, _ = vlib.validate_traces(ctx, "ardop", "ArdopTrace", "ArdopTrace.cfg", mf, len(mech_rows), name="mech")
+        for (mt, ml) in mrej:
+            r = mech_rows[mt - 1]
+            msg = "SPEC-DRIFT: Ardop.tla cannot follow the TNC log of schedule %s at position %d: %s" % (r["scen"], ml, [(e["op"], e["v"]) for e in r["ev"]][:ml + 1][-8:])
+            print(msg[:500])
+            ctx.drift.append(msg)
     for (t, l) in rejected:
         row = rows[t - 1]
         sc = row["scen"]
@@ -75,5 +100,6 @@ def run(ctx):
                 "all non-trivial (the TNC is initialised and a connection attempted)",
         "samples": [rows[0], rows[len(rows) // 2]["scen"]],
         "exhaustive": False,
+        "mechanism_traces_validated": {"accepted": macc, "total": len(mech_rows)},
     }, ["TLC", "simulated TNC, frame lexer and CRC-16 (0x8810 / 0xFFFF) written from docs/ardop", "internal goroutine interleavings of the library "
         "are not controlled", "real time: 500 ms receiver eviction and 30 s close timeouts are not waited for"])
